@@ -389,6 +389,13 @@ func init() {
 		Variant{Name: "materialised payload kept in a local", Property: "C18", File: "proto/compat/codec.go", Benign: true,
 			Old: "\t\terr := convertAndRepairInvalidUTF8(data.Materialize(), v)\n", New: "\t\tpayload := data.Materialize()\n\t\terr := convertAndRepairInvalidUTF8(payload, v)\n"},
 	)
+	// ---- round 13
+	addVariants(
+		Variant{Name: "intra-proxy branch returns nil after logging the handler's error", Property: "C15", File: "interceptor/translation_interceptor.go",
+			Old: "\t\terr := handler(srv, ss)\n\t\tif err != nil {\n\t\t\ti.logger.Error(\"grpc handler with error: %v\", tag.Error(err))\n\t\t}\n\t\treturn err\n", New: "\t\tif err := handler(srv, ss); err != nil {\n\t\t\ti.logger.Error(\"grpc handler with error: %v\", tag.Error(err))\n\t\t}\n\t\treturn nil\n", Expect: "O15.10"},
+		Variant{Name: "intra-proxy branch in early-return style", Property: "C15", File: "interceptor/translation_interceptor.go", Benign: true,
+			Old: "\t\terr := handler(srv, ss)\n\t\tif err != nil {\n\t\t\ti.logger.Error(\"grpc handler with error: %v\", tag.Error(err))\n\t\t}\n\t\treturn err\n", New: "\t\tif err := handler(srv, ss); err != nil {\n\t\t\ti.logger.Error(\"grpc handler with error: %v\", tag.Error(err))\n\t\t\treturn err\n\t\t}\n\t\treturn nil\n"},
+	)
 	// ---- C06
 	ast := "proxy/admin_stream_transfer.go"
 	addVariants(
